@@ -21,7 +21,7 @@ from typing import Any, List
 from mc.core import HarnessError, digest
 from mc.explore import ExecResult, V
 from mc.harness import client_view, norm_msg, run_world
-from props import c03, c05, c06, c07, c08
+from props import c03, c05, c06, c07, c08, c15
 
 ID = "C16"
 LEVEL = "model_checking"
@@ -44,6 +44,7 @@ SETS = {
     "c06": (c06, 0),
     "c07": (c07, 1),
     "c08": (c08, 0),
+    "c15": (c15, 0),
 }
 
 
@@ -59,6 +60,10 @@ def scenarios(tier: str) -> List[Any]:
                 continue
             if name == "c05" and p[4] == "cancel":
                 continue  # raising the runtime's own cancellation exception is not comparable across runtimes
+            if name == "c15" and (len(p[2]) != 1 or p[3] != "none"):
+                continue  # one connection on the real worker_serve(): shutdown behaviour as the client sees it
+            if name == "c07" and len(p) > 4:
+                continue
             if name == "c08" and (p[2] != "win0" or p[3] > 4):
                 continue  # transport pause is modelled differently (asyncio buffers, trio blocks): excluded
             out.append((name, p))
@@ -103,7 +108,7 @@ def _obs(w: Any) -> tuple:
         if i.outcome == "running":
             msgs += [norm_msg(m) for m in i.drained]
         insts.append((i.scope["type"], i.scope.get("path"), tuple(msgs)))
-    clients = tuple((k, client_view(rec)) for k, rec in sorted(w.conns.items()))
+    clients = tuple((k, ("refused",) if rec.refused else client_view(rec)) for k, rec in sorted(w.conns.items()))
     closes = tuple((k, rec.closed_at) for k, rec in sorted(w.conns.items()))
     return (tuple(insts), clients, closes)
 
@@ -148,6 +153,8 @@ def _short(name: str, p: tuple) -> str:
         return f"{p[3]}:{'+'.join(p[1])}:max{p[2]}"
     if name == "c05":
         return f"{p[1]}:{p[2]}:k{p[3]}:{p[4]}"
+    if name == "c15":
+        return f"{p[1]}:{'+'.join(p[2])}"
     if name == "c08":
         return f"{p[1]}:{p[2]}:n{p[3]}:{p[4]}"
     return f"{p[0]}:{p[2]}:{p[3]}"
